@@ -504,6 +504,30 @@ def run(ctx):
     # bytes) - C14's containment obligations
     from . import c14
     ctx.import_rules(c14, "t14", only=("C14.a", "C14.b"))
+    # ... the checks themselves are the documented ones: the CRC-8 table (a changed entry lets one substitute value per position through) and
+    # the checksum formula - C12's obligations on the same functions
+    from . import c12
+    ctx.import_rules(c12, "t12", only=("C12.a", "C12.e"))
+    # ... and the exposed state is written by the response handlers only: an operation that resets an exposed attribute before its exchange
+    # has been validated changes the state also when every frame of that exchange is dropped
+    acls = prog.cls(AC)
+    handlers = [prog.funcs.get(f"{AC}._update_state"), prog.funcs.get(f"{AC}._update_capabilities")]
+    exposed = {t_.attr for h_ in handlers if h_ is not None for n_ in ast.walk(h_.node) if isinstance(n_, (ast.Assign, ast.AugAssign, ast.AnnAssign))
+               for t_ in (n_.targets if isinstance(n_, ast.Assign) else [n_.target]) if isinstance(t_, ast.Attribute) and isinstance(t_.value, ast.Name) and t_.value.id == h_.params[0]}
+    early = []
+    for name_ in ("refresh", "get_capabilities", "toggle_display", "start_self_clean", "_send_command_get_responses", "_send_command_get_response_with_id", "_apply_properties"):
+        m_ = acls.methods.get(name_)
+        if m_ is None:
+            continue
+        for n_ in ast.walk(m_.node):
+            if isinstance(n_, (ast.Assign, ast.AugAssign, ast.AnnAssign)):
+                for t_ in (n_.targets if isinstance(n_, ast.Assign) else [n_.target]):
+                    if isinstance(t_, ast.Attribute) and isinstance(t_.value, ast.Name) and t_.value.id == m_.params[0] and t_.attr in exposed:
+                        early.append((m_, n_, t_.attr))
+    ctx.count("exposed_attributes", len(exposed))
+    ctx.ob("C13.c", AC, not early, "the operations store no exposed state themselves (only _update_state / _update_capabilities do, from validated responses)",
+           func=early[0][0].qual if early else AC, file=acls.module.rel, node=early[0][1] if early else None, construct="direct store to exposed state",
+           fail=(f"{early[0][0].qual} writes self.{early[0][2]} itself: the exposed state changes even when every frame of the exchange is rejected") if early else "")
     ctx.require_min("validators", 2)
     ctx.require_min("validator_raises", 2)
     ctx.require_min("construct_returns", 1)
